@@ -1,11 +1,11 @@
 SPECIFICATION Spec
 CONSTANTS
-  Programs <- MCProgramsQuick
+  Programs <- MCProgramsSmall
   FactStates <- MCFacts
   MaxCycles = {0, 1, 2}
   Flags = {TRUE, FALSE}
   Modes = {"exec", "fetch"}
-  MaxCalls = 1
+  MaxCalls = 3
   CanCancel = TRUE
 VIEW view
 INVARIANTS TypeOK FetchExact QuiescentAtNil WithinBudget MaxIsJustified CompleteEnds ErrorsNamed
